@@ -367,19 +367,23 @@ def body_schedule(ctx, case):
     ids = ["pg%02d" % i for i in range(n)]
     kinds = ("xml", "render", "lines")
     with F.scratch() as d:
-        job = F.make_job(d, ids, case["lines"][:n], case["seeds"][:n])
+        job = F.make_job(d, ids, case["lines"][:n], case["seeds"][:n], with_text=True)
         with open(job["config"], "w") as f:       # model-free stages only
             f.write("[PAGE_PARSER]\nRUN_LAYOUT_PARSER = no\nRUN_LINE_CROPPER = yes\nRUN_OCR = no\nRUN_DECODER = no\n\n"
                     "[LINE_CROPPER]\nINTERP = 2\nLINE_SCALE = 1\nLINE_HEIGHT = 16\n")
         desc = lambda: "case=%r" % (case,)
         seq = F.out_dirs(d, "seq", kinds)
-        rc, out = run_script(F.argv_for(job, seq, process_count=1))
+        rc, out = run_script(F.argv_for(job, seq, process_count=1, transcriptions_file=os.path.join(d, "seq.txt")))
         ctx.check(rc == 0 and "ERROR" not in out, "sequential_run_fails", lambda: "rc=%r %s; " % (rc, out[-500:]) + desc())
+        seq_txt = open(os.path.join(d, "seq.txt")).read()
+        ctx.check(len(seq_txt.splitlines()) == sum(case["lines"][:n]), "transcriptions_file_incomplete", lambda: "%r; " % seq_txt + desc())
         ref = F.snapshot(seq)
         ctx.check(sorted(ref["xml"]) == sorted(i + ".xml" for i in ids), "sequential_run_incomplete", lambda: "%r; " % sorted(ref["xml"]) + desc())
         par = F.out_dirs(d, "par", kinds)
-        rc, out = run_script(F.argv_for(job, par, process_count=case["procs"]))
+        rc, out = run_script(F.argv_for(job, par, process_count=case["procs"], transcriptions_file=os.path.join(d, "par.txt")))
         ctx.check(rc == 0 and "ERROR" not in out, "parallel_run_fails", lambda: "rc=%r %s; " % (rc, out[-500:]) + desc())
+        par_txt = open(os.path.join(d, "par.txt")).read()
+        ctx.check(par_txt == seq_txt, "transcriptions_file_of_parallel_run_differs", lambda: "sequential %r parallel %r; " % (seq_txt, par_txt) + desc())
         diff = F.diff_snapshots(ref, F.snapshot(par))
         ctx.check(not diff, "parallel_run_differs_from_sequential", lambda: "%r; " % (diff,) + desc())
         # resumed run: the first part of the pages is already there (copied from a run over those pages only)
@@ -408,6 +412,41 @@ def body_schedule(ctx, case):
         ctx.check(not diff, "resumed_run_differs_from_sequential", lambda: "%r; " % (diff,) + desc())
         if 0 < len(touched) < n or any(p != 7 for _, p in touched):
             ctx.nontrivial(repr(case))
+
+
+# ---------------------------------------------------------------- the transformer recogniser as OCR method
+def strat_transformer_pages():
+    from hypothesis import strategies as st
+    from checks.c20_transformer_cache import model_cfg
+    page = st.fixed_dictionaries(dict(seed=st.integers(0, 2 ** 31 - 1), binary=st.just(False)))
+    return st.tuples(model_cfg(), st.integers(1, 4), st.sampled_from([32, 64, 96]), st.lists(page, min_size=2, max_size=4),
+                     st.lists(st.integers(0, 3), min_size=2, max_size=6))
+
+
+def body_transformer_pages(ctx, case):
+    """one long-lived transformer engine decodes pages one after another (same number of lines and the same widths on every
+    page - the usual case for fixed-size batches); every page must come out as from an engine that has seen only it."""
+    import copy as _copy
+    from checks.c20_transformer_cache import build_model, make_engine, make_batch, transcribe, close
+    cfg, n_lines, width, pages, order = case
+    net = build_model(cfg, max_seq_len=64)
+    pristine = _copy.deepcopy(net)
+    eng = make_engine(net, cfg)
+    batches = [make_batch(dict(seed=p["seed"], n=n_lines, w=width, binary=False)) for p in pages]
+    alone = {}
+    last = None
+    for step, k in enumerate(order):
+        i = k % len(batches)
+        if i not in alone:
+            alone[i] = transcribe(make_engine(_copy.deepcopy(pristine), cfg), batches[i])
+        got = transcribe(eng, batches[i])
+        ctx.check(got[0] == alone[i][0], "transformer_page_result_depends_on_history",
+                  lambda: "page %d decoded after page %r: %r, alone %r; case=%r" % (i, last, got[0], alone[i][0], case))
+        ctx.check(close(got[1], alone[i][1], 1e-4), "transformer_page_scores_depend_on_history",
+                  lambda: "page %d decoded after page %r; case=%r" % (i, last, case))
+        last = i
+    if len({k % len(batches) for k in order}) >= 2 and any(alone[a][0] != alone[b][0] for a in alone for b in alone):
+        ctx.nontrivial(("tpages", repr(case)))
 
 
 # ---------------------------------------------------------------- resumed runs over every partial state of a small batch
@@ -478,6 +517,7 @@ def body_resume_state(ctx, case):
 UNITS = [
     Unit("page_decoder", "machine", machine=make_decoder_machine, quick=320, thorough=4000, steps=10, shards_quick=8, shrink_quick=False),
     Unit("page_parser", "machine", machine=make_parser_machine, quick=64, thorough=800, steps=7, shards_quick=8, shrink_quick=False),
+    Unit("transformer_pages", "given", body=body_transformer_pages, strategy=strat_transformer_pages, quick=60, thorough=800, shards_quick=4),
     Unit("resume_states", "enum", body=body_resume_state, cases=resume_state_cases, exhaustive=True, shards_quick=4, shards_thorough=4),
     Unit("schedule", "given", body=body_schedule, strategy=strat_schedule, quick=8, thorough=64, shards_quick=4, shards_thorough=16, shrink_quick=False),
 ]
